@@ -93,7 +93,7 @@ func init() {
 			if len(sc.Ops) > 2 {
 				pb = c.Pick(2, 3)
 			}
-			c.DFS(sc.name(), explore.Bounds{Preempt: pb, Dev: 1, POR: true})
+			c.DFSBoth(sc.name(), explore.Bounds{Preempt: pb, Dev: 1}, 1)
 		}
 	})
 }
